@@ -17,10 +17,11 @@ import OpusProofs.EndToEnd
   their contracts prescribe, C01), with room for `frame_size · Fs_dec / Fs_enc` samples per channel.
   No other hypothesis: in particular nothing is assumed about the bytes inside the frames.
 
-  NOT composed here: the multistream version.  C10 `ms_encode_packet_structure` gives
-  `msPacketValidate out n Fs = .ok frame_size`, but C01 `msDecodeFull_ret` only concludes `RetOk` (a
-  documented error or `0 < n ≤ frame_size`); a lemma "if the validation pass reports `k ≤ frame_size`
-  then `msDecodeFull` returns exactly `k`" is missing on the decoder side.
+  The multistream version is composed separately, in OpusProps/EndToEndMs.lean
+  (`ms_encode_decode_duration`, `ms_encode_decode_duration_contract`): C10 `ms_encode_packet_structure` gives
+  `msPacketValidate out n Fs = .ok frame_size`, and C01 `msDecodeFull_duration` / OpusProofs/DecSkelMsDur.lean
+  `msDecodeFull_duration_spec` supply the decoder-side lemma that was missing when this file was first written
+  ("if the validation pass reports `k ≤ frame_size` then `msDecodeFull` returns exactly `k`").
 -/
 namespace OpusProps.EndToEnd
 open Opus Opus.EncSkel Opus.EncSkel.Proofs Opus.DecSkel Opus.EndToEnd
